@@ -50,7 +50,7 @@ func TestProp(t *testing.T) {
 		t0 = time.Now()
 	}
 	// ---- draw
-	nDraw := pbt.Pick(6000, 60000)
+	nDraw := pbt.Pick(5000, 40000)
 	if v, err := strconv.Atoi(os.Getenv("VERIF_C19_DRAW_N")); err == nil && v > 0 {
 		nDraw = v // debugging knob
 	}
